@@ -314,6 +314,7 @@ type xGenOpts struct {
 	BadInputPct int // chance that a variable's raw value is a one-step mutant of a conformant one (C05)
 	NestedVarPct int // chance that a field of an input-object literal is written as a variable (default 20)
 	OmitVarPct   int // chance that a nullable / defaulted variable is not supplied (default 25)
+	ReusePct     int // chance of the fragment-reuse family at the root (two sites sharing a fragment, differing later)
 }
 
 type xGen struct {
@@ -618,6 +619,41 @@ func (g *xGen) usedVars(ss []*xSel, seen map[string]bool, out map[string]bool) {
 	}
 }
 
+// reuseFamily builds the shape  k1: f { ...F c { X } }  k2: f { ...F c { Y } }  fragment F on T { c { Z } }:
+// two sites whose merged occurrences of a key share the parent type, the first sub-selection (from the
+// reused fragment) and the number of occurrences, and differ only in a later occurrence
+func (g *xGen) reuseFamily(root string) []*xSel {
+	rt := g.s.typ(root)
+	for _, fn := range rt.Fields {
+		tn := g.s.Pool[fn].Type.named()
+		tt := g.s.typ(tn)
+		if tt == nil || tt.Kind != "object" || len(g.s.Pool[fn].Args) > 0 {
+			continue
+		}
+		for _, cn := range tt.Fields {
+			ctn := g.s.Pool[cn].Type.named()
+			ct := g.s.typ(ctn)
+			if ct == nil || (ct.Kind != "object" && ct.Kind != "interface") || len(g.s.Pool[cn].Args) > 0 {
+				continue
+			}
+			fr := &xFrag{Name: fmt.Sprintf("F%d", len(g.frags)), Cond: tn, idx: len(g.frags)}
+			g.frags = append(g.frags, fr)
+			saved := g.curFrag
+			g.curFrag = fr.idx
+			fr.Sel = []*xSel{{Kind: "field", Name: cn, Args: g.argsFor(g.s.Pool[cn], cn), Sub: g.selSet(ctn, 0)}}
+			g.curFrag = saved
+			site := func(alias string) *xSel {
+				return &xSel{Kind: "field", Alias: alias, Name: fn, Args: g.argsFor(g.s.Pool[fn], alias), Sub: []*xSel{
+					{Kind: "spread", Name: fr.Name},
+					{Kind: "field", Name: cn, Args: g.argsFor(g.s.Pool[cn], cn), Sub: g.selSet(ctn, 0)},
+				}}
+			}
+			return []*xSel{site(fn + "_1"), site(fn + "_2")}
+		}
+	}
+	return nil
+}
+
 func xGenDoc(r *Rng, s *xSchema, o xGenOpts) (*xDoc, *xGen) {
 	g := &xGen{r: r, s: s, o: o, variants: map[string][]xArgVal{}, varTypes: map[string]*xTy{}, varDefs: map[string]*xValue{}, curFrag: -1}
 	d := &xDoc{}
@@ -626,7 +662,11 @@ func xGenDoc(r *Rng, s *xSchema, o xGenOpts) (*xDoc, *xGen) {
 		if kind == "mutation" {
 			root = "M"
 		}
-		return &xOp{Kind: kind, Name: name, Sel: g.selSet(root, o.MaxDepth)}
+		sel := g.selSet(root, o.MaxDepth)
+		if r.Chance(o.ReusePct) {
+			sel = append(g.reuseFamily(root), sel...)
+		}
+		return &xOp{Kind: kind, Name: name, Sel: sel}
 	}
 	kind := "query"
 	if o.Mutation {
